@@ -73,8 +73,9 @@ CHECKS = {
              "(longest prefix first). Tied to the real "
              "code on temp trees created in shuffled order; imports observed through module top-level code.",
         note="--package/-s is not modelled; symlinked directories are materialised and must behave like real ones "
-             "(D30 fixed); independence of enumeration order is proved per directory level (files, sub-directories), "
-             "not as one statement over a tree-permutation relation",
+             "(D30 fixed); independence of enumeration order is proved per directory level and as one statement over whole "
+             "trees (C14_enum_independent: trees related by permuting files and sub-directories at any depth, distinct "
+             "sub-directory names)",
         technique="Lean 4 theorems on hand-written model + differential correspondence on real directory trees",
         design="§5 C14"),
     "C15": dict(
